@@ -441,6 +441,13 @@ fn gen_leaf(ch: &mut Choices, height: u64, n_max: u64) -> Leaf {
     }
 }
 
+fn next_height(base: u64, n_leaves: usize, n_max: u64) -> Option<u64> {
+    if (n_leaves as u64) >= n_max - 2 {
+        return None;
+    }
+    base.checked_add(n_leaves as u64)
+}
+
 fn drive<V: SimVer>(ch: &mut Choices, ctx: &mut RunCtx, big: bool) -> SimResult {
     let branch = match ch.below("branch", 4) {
         0 => 0,
@@ -449,11 +456,13 @@ fn drive<V: SimVer>(ch: &mut Choices, ctx: &mut RunCtx, big: bool) -> SimResult 
         _ => ch.u64("branch.v") as u32,
     };
     let n_max: u64 = 2048;
-    let base = match ch.below("base_height", 5) {
+    let base = match ch.below("base_height", 6) {
         0 => 0u64,
         1 => ch.below("base.small", 3_000_000),
         2 => (u32::MAX as u64) - ch.below("base.u32", 64),
         3 => u64::MAX - n_max - ch.below("base.top", 1000),
+        // the last leaves reach u64::MAX itself; appends stop there
+        4 => u64::MAX - ch.below("base.max", 48),
         _ => ch.u64("base.any") % (u64::MAX - n_max),
     };
     let max_ops = if big { 400 } else { 48 };
@@ -483,8 +492,7 @@ fn drive<V: SimVer>(ch: &mut Choices, ctx: &mut RunCtx, big: bool) -> SimResult 
                 let j = 1 + if big { ch.below("app.n", 24) } else { ch.below("app.n", 5) };
                 s.ctx.op("append");
                 for _ in 0..j {
-                    if (s.leaves.len() as u64) < n_max - 2 {
-                        let h = base + s.leaves.len() as u64;
+                    if let Some(h) = next_height(base, s.leaves.len(), n_max) {
                         let leaf = gen_leaf(ch, h, n_max);
                         s.append(leaf)?;
                     }
@@ -515,8 +523,7 @@ fn drive<V: SimVer>(ch: &mut Choices, ctx: &mut RunCtx, big: bool) -> SimResult 
                 s.ctx.fault("party_restart");
                 let j = 1 + ch.below("app.n", 4);
                 for _ in 0..j {
-                    if (s.leaves.len() as u64) < n_max - 2 {
-                        let h = base + s.leaves.len() as u64;
+                    if let Some(h) = next_height(base, s.leaves.len(), n_max) {
                         let leaf = gen_leaf(ch, h, n_max);
                         s.append(leaf)?;
                     }
@@ -546,6 +553,10 @@ fn drive<V: SimVer>(ch: &mut Choices, ctx: &mut RunCtx, big: bool) -> SimResult 
             }
             // append then truncate restores root, length and records
             4 => {
+                let Some(h) = next_height(base, s.leaves.len(), n_max) else {
+                    ch.close();
+                    continue;
+                };
                 s.ctx.op("append_then_truncate");
                 let before_store = s.store.recs.clone();
                 let before_root = V::to_bytes(s.view.as_ref().unwrap().root_node().map_err(|e| Violation::new("root_resolvable", e.to_string()))?.data());
@@ -558,7 +569,6 @@ fn drive<V: SimVer>(ch: &mut Choices, ctx: &mut RunCtx, big: bool) -> SimResult 
                     s.restart(&needs, false)?;
                     s.ctx.probe("mmr_partial_view_used");
                 }
-                let h = base + s.leaves.len() as u64;
                 let leaf = gen_leaf(ch, h, n_max);
                 s.append(leaf)?;
                 s.truncate()?;
